@@ -261,7 +261,29 @@ func c16JSON(v interface{}) string {
 type c16Gen struct {
 	r *fw.Rand
 	// set by the reference closures when First/Last was applied to an empty list
-	emptyFirstLast *bool
+	emptyFirstLast *bool // a First/Last stage met an empty list that the engine holds as a nil slice
+	emptyNonNil    *bool // ... an empty list that the engine holds as an empty, non-nil slice
+}
+
+// noteEmpty: a First/Last stage is about to be applied to an empty list. The
+// recorded defect (First/Last of a NIL slice is nil, which later stages count
+// as one item) only concerns lists the engine holds as nil slices, which is
+// what most accessors return for "none". An empty but non-nil slice (Only that
+// matched nothing, First(0)) is handled correctly, so it is told apart by
+// asking the engine itself for the value in front of the stage.
+func (g *c16Gen) noteEmpty(prefix string, d *gedcom.Document) {
+	pv, err := c16Eval(prefix, []*gedcom.Document{d})
+	isNil := err == nil && pv == nil
+	if err == nil && pv != nil {
+		if rv := reflect.ValueOf(pv); rv.Kind() == reflect.Slice && rv.IsNil() {
+			isNil = true
+		}
+	}
+	if isNil || err != nil {
+		*g.emptyFirstLast = true
+	} else if g.emptyNonNil != nil {
+		*g.emptyNonNil = true
+	}
 }
 
 func (g *c16Gen) source() c16Expr {
@@ -397,7 +419,7 @@ func (g *c16Gen) build() (c16Expr, string) {
 			e = c16Expr{q: fmt.Sprintf("%s | First(%d)", prev.q, n), typ: c16AsList(prev.typ), eval: func(d *gedcom.Document) interface{} {
 				v := prev.eval(d)
 				if l, ok := c16List(v); ok && len(l) == 0 {
-					*g.emptyFirstLast = true
+					g.noteEmpty(prev.q, d)
 				}
 				return c16First(v, n)
 			}}
@@ -410,7 +432,7 @@ func (g *c16Gen) build() (c16Expr, string) {
 			e = c16Expr{q: fmt.Sprintf("%s | Last(%d)", prev.q, n), typ: c16AsList(prev.typ), eval: func(d *gedcom.Document) interface{} {
 				v := prev.eval(d)
 				if l, ok := c16List(v); ok && len(l) == 0 {
-					*g.emptyFirstLast = true
+					g.noteEmpty(prev.q, d)
 				}
 				return c16Last(v, n)
 			}}
@@ -587,6 +609,39 @@ func c16TagPath(n gedcom.Node, p []string) []interface{} {
 	return out
 }
 
+// c16TopLevelStages splits a pipeline at the pipes that are not inside
+// parentheses, braces or a string.
+func c16TopLevelStages(qs string) []string {
+	var out []string
+	depth, inStr, start := 0, false, 0
+	for i := 0; i < len(qs); i++ {
+		switch ch := qs[i]; {
+		case ch == '"':
+			inStr = !inStr
+		case inStr:
+		case ch == '(' || ch == '{':
+			depth++
+		case ch == ')' || ch == '}':
+			depth--
+		case ch == '|' && depth == 0 && i > 0 && i+1 < len(qs) && qs[i-1] == ' ' && qs[i+1] == ' ':
+			out = append(out, strings.TrimSpace(qs[start:i]))
+			start = i + 1
+		}
+	}
+	return append(out, strings.TrimSpace(qs[start:]))
+}
+
+// c16StageOnDocument: index (>= 1) of the last stage that evaluates without
+// an error when it is applied to the document itself, or -1.
+func c16StageOnDocument(stages []string, fresh func() *gedcom.Document) int {
+	for k := len(stages) - 1; k >= 1; k-- {
+		if _, err := c16Eval(stages[k], []*gedcom.Document{fresh()}); err == nil {
+			return k
+		}
+	}
+	return -1
+}
+
 func c16N(tier string) int {
 	if tier == "thorough" {
 		return 8000 // x40 queries
@@ -707,8 +762,8 @@ func c16Run(c *fw.Ctx, i int) {
 		}
 		return d
 	}
-	sawEmpty := false
-	gg := &c16Gen{r: r, emptyFirstLast: &sawEmpty}
+	sawEmpty, sawEmptyNonNil := false, false
+	gg := &c16Gen{r: r, emptyFirstLast: &sawEmpty, emptyNonNil: &sawEmptyNonNil}
 	for k := 0; k < 40; k++ {
 		e, shape := gg.build()
 		c.Class("shape", shape)
@@ -716,13 +771,15 @@ func c16Run(c *fw.Ctx, i int) {
 		_ = payload
 		doc := fresh()
 		got, err := c16Eval(e.q, []*gedcom.Document{doc})
-		sawEmpty = false
+		sawEmpty, sawEmptyNonNil = false, false
 		var want interface{}
 		apiPanic := fw.Try(func() { want = e.eval(fresh()) })
 		cause := ""
 		if sawEmpty {
 			// documented composition: First/Last of an empty (nil) list is nil, and nil counts as one item afterwards
 			cause = ":after-First-or-Last-of-empty-list"
+		} else if sawEmptyNonNil {
+			cause = ":after-First-or-Last-of-an-empty-non-nil-list"
 		}
 		if apiPanic != nil {
 			// the Go API itself panics on this chain (e.g. .Value on a missing *NameNode): the query must fail too
@@ -790,8 +847,20 @@ func c16Run(c *fw.Ctx, i int) {
 		// variable inlining
 		c.Count("law-inlining", 1)
 		vq := "V is " + e.q + "; V"
-		if parts := strings.SplitN(e.q, " | ", 2); len(parts) == 2 && !strings.HasPrefix(e.q, "Combine(") && r.Bool() {
-			vq = "V is " + parts[0] + "; V | " + parts[1]
+		stages := c16TopLevelStages(e.q)
+		switch {
+		case len(stages) >= 2 && r.Chance(1, 2) && c16StageOnDocument(stages, fresh) >= 0:
+			// a variable that stands for one of the later stages: it is used
+			// after a pipe, where the current item is not the document. Every
+			// statement is also evaluated on the document by itself, so only a
+			// stage that can be (Length, First(n), .Nodes, ...) is taken.
+			k := c16StageOnDocument(stages, fresh)
+			with := append([]string{}, stages...)
+			with[k] = "V"
+			vq = "V is " + stages[k] + "; " + strings.Join(with, " | ")
+			c.Count("law-inlining-after-a-pipe", 1)
+		case len(stages) >= 2 && r.Bool():
+			vq = "V is " + stages[0] + "; V | " + strings.Join(stages[1:], " | ")
 		}
 		if rv, ev := c16Eval(vq, []*gedcom.Document{fresh()}); ev != nil {
 			c.Violation("law-inlining:"+shape, fmt.Sprintf("%s fails (%v) although %s evaluates", vq, ev, e.q), payload)
